@@ -65,7 +65,10 @@ func (w *world) adminCtx(db string) context.Context {
 	ctx, ok := w.adm[db]
 	fx.mu.Unlock()
 	if ok {
-		return ctx
+		// the session may have expired (the session timeout is tiny and the machine may be loaded): look before use
+		if md, _ := metadata.FromOutgoingContext(ctx); len(md.Get("sessionid")) == 1 && w.srv.SessManager.SessionPresent(md.Get("sessionid")[0]) {
+			return ctx
+		}
 	}
 	return w.openAdmin(db)
 }
@@ -90,6 +93,12 @@ func (w *world) keepAdminAlive() {
 	}()
 }
 
+// the administrator's session expired (the machine may be so loaded that the keep-alive pings come too late)
+func sessionGone(err error) bool {
+	t := err.Error()
+	return strings.Contains(t, "session not found") || strings.Contains(t, "no session found") || strings.Contains(t, "please login")
+}
+
 // adminInvoke: a unary call by the administrator with a session on db; invalidates the cached snapshot.
 func (w *world) adminInvoke(db, full string, req, resp proto.Message) error {
 	w.snapOK = nil
@@ -102,7 +111,7 @@ func (w *world) adminRead(db, full string, req, resp proto.Message) error {
 		ctx, cancel := context.WithTimeout(w.adminCtx(db), 20*time.Second)
 		err := w.conn.Invoke(ctx, full, req, resp)
 		cancel()
-		if err != nil && attempt == 0 && strings.Contains(err.Error(), "session not found") {
+		if err != nil && attempt == 0 && sessionGone(err) {
 			w.openAdmin(db)
 			continue
 		}
@@ -119,7 +128,7 @@ func (w *world) obsCtx(db string) context.Context {
 
 func (w *world) obsRetry(db string, f func(ctx context.Context) error) error {
 	err := f(w.obsCtx(db))
-	if err != nil && strings.Contains(err.Error(), "session not found") {
+	if err != nil && sessionGone(err) {
 		w.openAdmin(db)
 		err = f(w.obsCtx(db))
 	}
